@@ -601,3 +601,5 @@ pub assume_specification<T, E, F: FnOnce(E) -> T + core::marker::Destruct> [std:
     ensures match x { Ok(v) => r == v, Err(e) => f.ensures((e,), r) };
 pub assume_specification<T> [std::mem::replace] (dest: &mut T, src: T) -> (r: T)
     ensures r == *old(dest), *final(dest) == src;
+pub assume_specification [<std::cmp::Ordering as PartialEq>::eq] (a: &std::cmp::Ordering, b: &std::cmp::Ordering) -> (r: bool)
+    ensures r == (*a == *b);
